@@ -197,13 +197,63 @@ impl Prop for C11 {
 
     fn budget(&self, tier: Tier) -> usize {
         match tier {
-            Tier::Quick => 700,
-            Tier::Thorough => 12000,
-            Tier::Search => 3000,
+            Tier::Quick => 2600,
+            Tier::Thorough => 30000,
+            Tier::Search => 6000,
         }
     }
 
-    fn gen_case(&mut self, rng: &mut Rng, _tier: Tier, _idx: usize) -> Vec<String> {
+    fn gen_case(&mut self, rng: &mut Rng, tier: Tier, idx: usize) -> Vec<String> {
+        // the first cases enumerate small splits systematically: one create (+ one append) of rows 1..n cut into
+        // batches, for every small file / group limit and a legacy and a 2.x version
+        let n_enum = match tier {
+            Tier::Quick => 160,
+            Tier::Thorough => 2400,
+            Tier::Search => 0,
+        };
+        if idx < n_enum {
+            const LENS: [&[usize]; 10] =
+                [&[7], &[3, 4], &[1, 1, 5], &[4, 0, 3], &[2, 2, 2, 1], &[6, 1], &[0, 7, 0], &[5, 2], &[1, 6], &[3, 3, 1]];
+            let mut i = idx;
+            let f = 1 + i % 5;
+            i /= 5;
+            let g = 1 + i % 4;
+            i /= 4;
+            let ver = [Ver::Legacy, Ver::V2_0, Ver::V2_1, Ver::V2_2][i % 2 + if (i / 2) % 3 == 2 { 2 } else { 0 }];
+            i /= 2;
+            let lens = LENS[i % LENS.len()];
+            i /= LENS.len();
+            let b = if i % 2 == 1 { Some(0) } else { None };
+            let spec = SchemaSpec::ints(1);
+            let mut next = 0i64;
+            let mut mk = |lens: &[usize]| -> Vec<Vec<Row>> {
+                lens.iter()
+                    .map(|&n| {
+                        (0..n)
+                            .map(|_| {
+                                next += 1;
+                                vec![Some(next)]
+                            })
+                            .collect()
+                    })
+                    .collect()
+            };
+            let knobs = Knobs {
+                max_rows_per_file: Some(f),
+                max_rows_per_group: Some(g),
+                max_bytes_per_file: b,
+                version: Some(ver),
+                stable_row_ids: false,
+            };
+            let first = WriteOp { mode: Mode::Create, knobs, spec: spec.clone(), batches: mk(lens) };
+            let second = WriteOp {
+                mode: Mode::Append,
+                knobs: Knobs { max_rows_per_file: Some(g + 1), max_rows_per_group: Some(f), ..knobs },
+                spec,
+                batches: mk(LENS[(idx * 7 + 3) % LENS.len()]),
+            };
+            return vec![show_op(&first), show_op(&second)];
+        }
         let malformed = rng.chance(3, 20);
         let len = 1 + rng.usize(6);
         let mut spec = Self::gen_spec(rng);
@@ -280,13 +330,18 @@ impl Prop for C11 {
 
     fn exec_case(&mut self, lines: &[String]) -> CaseResult {
         self.kit.reset_session();
+        // one case in 16 lives in a real directory (local object store) instead of memory://
+        let on_disk = lines.iter().map(|l| l.len()).sum::<usize>() % 16 == 0;
+        let uri = if on_disk { self.kit.tempdir_uri() } else { self.kit.fresh_uri() };
         let kit = &self.kit;
-        let uri = kit.fresh_uri();
         let mut res = CaseResult::default();
         let mut ds: Option<Dataset> = None;
         let mut exp: Option<Expect> = None;
         let mut total_written = 0usize;
         let mut multi_frag = false;
+        if on_disk {
+            res.tags.push("store:local_dir".into());
+        }
         for (ln, line) in lines.iter().enumerate() {
             let Some(op) = parse_op(line) else {
                 res.outputs.push("err parse".into());
@@ -443,6 +498,19 @@ impl Prop for C11 {
                     let sv = sv.map(|v| v.as_str()).unwrap_or("?");
                     res.tags.push(format!("sv:{sv}"));
                     res.tags.push(format!("nfrags:{}", frags.len().min(6)));
+                    if let Some(f) = op.knobs.max_rows_per_file {
+                        if f >= 1 << 32 {
+                            res.tags.push("limit:wraps_u32".into());
+                        } else if frags.iter().any(|x| x.1 > f) && sv == "legacy" {
+                            res.tags.push("limit:legacy_file_over_max_rows".into());
+                        }
+                    }
+                    if op.knobs.max_bytes_per_file == Some(0) {
+                        res.tags.push("limit:max_bytes_0".into());
+                    }
+                    if op.knobs.stable_row_ids {
+                        res.tags.push("stable_row_ids".into());
+                    }
                     if op.spec != expected.spec {
                         res.tags.push("append:subschema".into());
                     }
@@ -491,7 +559,9 @@ impl Prop for C11 {
     }
 
     fn rule(&self) -> String {
-        "histories of 1-6 create/append/overwrite ops on one memory:// dataset; each write is a list of 0-5 batches of 0-21 rows \
+        "first 160 (quick) cases: systematic create+append of rows 1..n for every max_rows_per_file 1..5 x max_rows_per_group 1..4 x \
+         {legacy, 2.x} x 10 batch-length patterns x max_bytes_per_file {default, 0}; then random \
+         histories of 1-6 create/append/overwrite ops on one memory:// dataset (1 in 16 in a local directory); each write is a list of 0-5 batches of 0-21 rows \
          (20% NULL cells, all-NULL batches, i64 extremes), 1-3 Int64 columns plus a random subset of Utf8/LargeUtf8/Float32/Struct/List \
          columns, max_rows_per_file/max_rows_per_group in 1..9 (or default, 100, 2^32+k), max_bytes_per_file 0 or default, storage \
          version legacy/2.0/2.1/2.2/default, stable row ids on/off; appends use the table schema or a sub-schema; 15% malformed \
